@@ -30,6 +30,7 @@ pub fn opts() -> GenOpts {
     o.usage_fallback = true;
     // `--point X [Y]`: a defaulted word at the end of an adjacent group
     o.adjacent_optional_words = true;
+    o.adjacent_cmds = true;
     o
 }
 
